@@ -74,7 +74,7 @@ def run_tlc(spec_dir, module, cfg, outdir, *, workers=None, timeout=600, simulat
     meta = os.path.join(outdir, "tlc", tag)
     shutil.rmtree(meta, ignore_errors=True)
     os.makedirs(meta, exist_ok=True)
-    java = ["java", "-XX:+UseParallelGC", "-Xmx" + xmx, "-DTLA-Library=" + COMMON]
+    java = ["java", "-XX:+UseParallelGC", "-Xmx" + xmx, "-Xss256m", "-DTLA-Library=" + COMMON]   # deep RECURSIVE operators
     if dfs_queue:
         java.append("-Dtlc2.tool.queue.IStateQueue=StateDeque")
     cmd = java + ["-cp", JAR + ":" + CM, "tlc2.TLC", "-metadir", meta, "-noGenerateSpecTE", "-config", cfg]
